@@ -944,6 +944,73 @@ theorem bi_rand1 (hx : ExtOk ext) (hg : GgOk Gg) (tys : List Ty) (vs : List (Val
     obtain ⟨w, rfl⟩ := hx.1 "rand" (by simp [numFns]) _ _ hc
     exact ⟨S, Grows.refl S, hk, hgl, rfl, fun t ht => by cases ht; exact .num _⟩
 
+theorem verts_typed {S : Store} {st : St F} (hk : HeapOk S st.heap) : ∀ (vs : List (Val F)),
+    (∀ v ∈ vs, VT S v (.arr .num)) →
+    (∃ l, callBuiltin.verts st vs = .ok l) ∨ callBuiltin.verts st vs = .error (.panic .badArgs) := by
+  intro vs
+  induction vs with
+  | nil => intro _; left; exact ⟨[], by simp [callBuiltin.verts]⟩
+  | cons v rest ih =>
+    intro h
+    obtain ⟨a, rfl, ha⟩ := (h v List.mem_cons_self).arr_inv
+    obtain ⟨es, he, hes⟩ := hk.arr a .num ha
+    have ihr := ih (fun w hw => h w (List.mem_cons_of_mem _ hw))
+    simp only [callBuiltin.verts, heapGet, he]
+    match es, hes with
+    | [], _ => right; simp
+    | [x], _ => right; simp
+    | [x, y], hes =>
+      obtain ⟨x', rfl⟩ := (hes x (by simp)).num_inv
+      obtain ⟨y', rfl⟩ := (hes y (by simp)).num_inv
+      simp only
+      rcases ihr with ⟨l, hl⟩ | hl
+      · left; exact ⟨x' :: y' :: l, by simp [hl, Except.map]⟩
+      · right; simp [hl, Except.map]
+    | _ :: _ :: _ :: _, _ => right; simp
+
+theorem bi_poly (hx : ExtOk ext) (hg : GgOk Gg) (tys : List Ty) (vs : List (Val F)) (st : St F) (S : Store)
+    (hz : PZ tys S vs) (hpred : ∀ (i : Nat) ta, tys[i]? = some ta → (⟨[], some (fun t => decide (t = .arr .num)), none⟩ : BSig).paramAt i ta = true)
+    (hk : HeapOk S st.heap) (hgl : GlobalOk S Gg st.global) :
+    ∃ r, callBuiltin ops ext (lit "poly") vs st = some r ∧ GoodBI Gg none S st r := by
+  simp [callBuiltin, isBuiltin, builtinNames, lit]
+  have hall : ∀ v ∈ vs, VT S v (.arr .num) := by
+    intro v hv
+    obtain ⟨t, h1, h2⟩ := rest_typed hz (fun t => decide (t = .arr .num)) (fun i ta h => by simpa [BSig.paramAt] using hpred i ta h) v hv
+    have : t = .arr .num := by simpa using h2
+    subst this; exact h1
+  rcases verts_typed hk vs hall with ⟨l, hl⟩ | hl
+  · simp only [hl]; exact emit_ok Gg hk hgl _
+  · simp only [hl]; exact trivial
+
+theorem fontProps_typed {S : Store} (m : MapVal (Val F)) (hm : ∀ p ∈ m.pairs, VT S p.2 .any) :
+    (∃ props, fontProps ops m = .ok props) ∨ fontProps ops m = .error (.panic .badArgs) := by
+  simp only [fontProps]
+  split
+  · rename_i h
+    rw [List.any_eq_true] at h
+    obtain ⟨p, hp, hpp⟩ := h
+    obtain ⟨t, w, hw, _, _⟩ := (hm p hp).any_inv
+    simp [hw] at hpp
+  · split
+    · right; rfl
+    · left; exact ⟨_, rfl⟩
+
+theorem bi_font (hx : ExtOk ext) (hg : GgOk Gg) (tys : List Ty) (vs : List (Val F)) (st : St F) (S : Store)
+    (hfix : vs.length = 1)
+    (hz : PZ tys S vs) (hpred : ∀ (i : Nat) ta, tys[i]? = some ta → (⟨[fun t => decide (t = .map .any)], none, none⟩ : BSig).paramAt i ta = true)
+    (hk : HeapOk S st.heap) (hgl : GlobalOk S Gg st.global) :
+    ∃ r, callBuiltin ops ext (lit "font") vs st = some r ∧ GoodBI Gg none S st r := by
+  simp [callBuiltin, isBuiltin, builtinNames, lit]
+  obtain ⟨v, t, rfl, rfl, hv⟩ := one_arg hfix hz
+  have : t = .map .any := by simpa [BSig.paramAt] using hpred 0 t rfl
+  subst this
+  obtain ⟨a, rfl, ha⟩ := hv.map_inv
+  obtain ⟨m, he, hm⟩ := hk.map a .any ha
+  simp only [heapGet, he]
+  rcases fontProps_typed ops m hm with ⟨props, hp⟩ | hp
+  · simp only [hp]; exact emit_ok Gg hk hgl _
+  · simp only [hp]; exact trivial
+
 /-- **the built-ins of the typed fragment on well-typed arguments** -/
 theorem builtin_ok (hx : ExtOk ext) (hg : GgOk Gg) (name : Str) (sig : BSig) (tys : List Ty) (vs : List (Val F)) (st : St F) (S : Store)
     (hs : builtinSig name = some sig) (hle : sig.params.length ≤ vs.length) (hfix : sig.rest = none → vs.length = sig.params.length)
@@ -1146,6 +1213,14 @@ theorem builtin_ok (hx : ExtOk ext) (hg : GgOk Gg) (name : Str) (sig : BSig) (ty
   · have hs' : sig = ⟨[], some isNumT, some .str⟩ := by simp [builtinSig, hn_hsl, lit] at hs; exact hs.symm
     subst hs'; subst hn_hsl
     exact ⟨by decide, bi_hsl ops ext Gg hx hg tys vs st S hle hfix hz hpred hk hgl⟩
+  by_cases hn_poly : name = lit "poly"
+  · have hs' : sig = ⟨[], some (fun t => decide (t = .arr .num)), none⟩ := by simp [builtinSig, hn_poly, lit] at hs; exact hs.symm
+    subst hs'; subst hn_poly
+    exact ⟨by decide, bi_poly ops ext Gg hx hg tys vs st S hz hpred hk hgl⟩
+  by_cases hn_font : name = lit "font"
+  · have hs' : sig = ⟨[fun t => decide (t = .map .any)], none, none⟩ := by simp [builtinSig, hn_font, lit] at hs; exact hs.symm
+    subst hs'; subst hn_font
+    exact ⟨by decide, bi_font ops ext Gg hx hg tys vs st S (hfix rfl) hz hpred hk hgl⟩
   by_cases hn_printf : name = lit "printf"
   · have hs' : sig = ⟨[isAnyT], some (fun _ => true), none⟩ := by simp [builtinSig, hn_printf, lit] at hs; exact hs.symm
     subst hs'; subst hn_printf
@@ -1171,7 +1246,7 @@ theorem builtin_ok (hx : ExtOk ext) (hg : GgOk Gg) (name : Str) (sig : BSig) (ty
     subst hs'; subst hn_rand1
     exact ⟨by decide, bi_rand1 ops ext Gg hx hg tys vs st S hle hfix hz hpred hk hgl⟩
   exfalso
-  simp [builtinSig, hn_len, hn_typeof, hn_has, hn_del, hn_str2bool, hn_sprint, hn_join, hn_startswith, hn_endswith, hn_index, hn_exit, hn_panic, hn_sleep, hn_cls, hn_read, hn_abs, hn_floor, hn_ceil, hn_round, hn_log, hn_sqrt, hn_sin, hn_cos, hn_min, hn_max, hn_pow, hn_atan2, hn_upper, hn_lower, hn_trim, hn_replace, hn_str2num, hn_move, hn_line, hn_rect, hn_circle, hn_width, hn_color, hn_colour, hn_stroke, hn_fill, hn_linecap, hn_text, hn_clear, hn_grid, hn_gridn, hn_dash, hn_ellipse, hn_hsl, hn_printf, hn_sprintf, hn_repr, hn_split, hn_rand, hn_rand1] at hs
+  simp [builtinSig, hn_len, hn_typeof, hn_has, hn_del, hn_str2bool, hn_sprint, hn_join, hn_startswith, hn_endswith, hn_index, hn_exit, hn_panic, hn_sleep, hn_cls, hn_read, hn_abs, hn_floor, hn_ceil, hn_round, hn_log, hn_sqrt, hn_sin, hn_cos, hn_min, hn_max, hn_pow, hn_atan2, hn_upper, hn_lower, hn_trim, hn_replace, hn_str2num, hn_move, hn_line, hn_rect, hn_circle, hn_width, hn_color, hn_colour, hn_stroke, hn_fill, hn_linecap, hn_text, hn_clear, hn_grid, hn_gridn, hn_dash, hn_ellipse, hn_hsl, hn_poly, hn_font, hn_printf, hn_sprintf, hn_repr, hn_split, hn_rand, hn_rand1] at hs
 
 /-- `test` on arguments that are all anys: passes, fails (the documented failed-test outcome) or
 rejects its arguments -/
